@@ -468,7 +468,12 @@ TEMPLATES = {
 
 
 def build_model(template: str, params: dict):
-    return TEMPLATES[template](params)
+    m = TEMPLATES[template](params)
+    if params.get("unnamed"):
+        # what onnx.helper-built models look like: nodes without names (a renaming pass has something to do)
+        for n in m.graph.node:
+            n.name = ""
+    return m
 
 
 # ---- parameter generators (each returns params for a model on which the rule can fire) -------
@@ -653,6 +658,8 @@ def model_target(rng, api: str, idx: int):
     if api == "convert":
         # strata: the model hits no adapter / GridSample / DFT, in turn
         p = g_convert(rng, variant=["plain", "gridsample", "dft"][idx % 3])
+        if idx % 3 == 0 or idx % 2 == 0:
+            p["unnamed"] = True
         return {"api": "convert", "template": "convert", "params": p, "target_version": p["target"]}
     if api == "rewrite_custom":
         # the child's persistent custom rule objects (kind: as_function / counter / plain), in turn
